@@ -56,9 +56,9 @@ class Run:
     def fail(self, rule, anchor, msg, loc=None, detail=None):
         return self._rec(False, rule, anchor, msg, loc, detail, True)
 
-    def require(self, cond, rule, anchor, msg_fail, msg_ok="", loc=None, detail=None):
+    def require(self, cond, rule, anchor, msg_fail, msg_ok="", loc=None, detail=None, nontrivial=True):
         if cond:
-            return self.ok(rule, anchor, msg_ok, loc, detail)
+            return self.ok(rule, anchor, msg_ok, loc, detail, nontrivial)
         return self.fail(rule, anchor, msg_fail, loc, detail)
 
     def sample(self, obj):
